@@ -32,12 +32,14 @@ type Prog struct {
 	// static call sites inside package rpc, keyed by callee
 	callers map[*ssa.Function][]ssa.CallInstruction
 	// uses of a function (or of a closure made from it) as a value
-	idx      map[ssa.Instruction]int
-	NumPkgs  int
-	AllFuncs int
-	GOARCH   string
-	Roles    []string // helper functions recognised by role under a different declared name
-	curFacts facts    // facts of the path currently examined by reachCut (read by target predicates)
+	valueUse  map[*ssa.Function]bool // function used as a value (method value, func value, go/defer target excluded)
+	idx       map[ssa.Instruction]int
+	NumPkgs   int
+	AllFuncs  int
+	GOARCH    string
+	Roles     []string // helper functions recognised by role under a different declared name
+	curFacts  facts    // facts of the path currently examined by reachCut (read by target predicates)
+	noDescend bool     // switch the in-line exploration of helpers off (used by summaries that do their own lifting)
 }
 
 // CallSite is one resolved call.
@@ -122,6 +124,7 @@ func Load(dir string, all bool, goarch string) (*Prog, error) {
 		return nil, fmt.Errorf("no SSA for %s", rpcPath)
 	}
 	p.index()
+	theProg = p
 	return p, nil
 }
 
@@ -129,6 +132,7 @@ func (p *Prog) index() {
 	p.byName = map[string]*ssa.Function{}
 	p.callers = map[*ssa.Function][]ssa.CallInstruction{}
 	p.idx = map[ssa.Instruction]int{}
+	p.valueUse = map[*ssa.Function]bool{}
 	all := ssautil.AllFunctions(p.SSA)
 	p.AllFuncs = len(all)
 	for fn := range all {
@@ -152,6 +156,34 @@ func (p *Prog) index() {
 				if c, ok := in.(ssa.CallInstruction); ok {
 					if cal := c.Common().StaticCallee(); cal != nil {
 						p.callers[cal] = append(p.callers[cal], c)
+					}
+				}
+				// a function or bound method used as a value
+				for _, op := range in.Operands(nil) {
+					if op == nil || *op == nil {
+						continue
+					}
+					if c, ok := in.(ssa.CallInstruction); ok && c.Common().Value == *op {
+						continue
+					}
+					switch f := (*op).(type) {
+					case *ssa.Function:
+						if f.Parent() == nil {
+							p.valueUse[f] = true
+						}
+					case *ssa.MakeClosure:
+						if fn2, ok := f.Fn.(*ssa.Function); ok && fn2.Synthetic != "" {
+							// bound method wrapper: the method itself escapes as a value
+							for _, b2 := range fn2.Blocks {
+								for _, in2 := range b2.Instrs {
+									if c2, ok := in2.(ssa.CallInstruction); ok {
+										if cal := c2.Common().StaticCallee(); cal != nil {
+											p.valueUse[cal] = true
+										}
+									}
+								}
+							}
+						}
 					}
 				}
 			}
@@ -328,7 +360,7 @@ func callArgs(c ssa.CallInstruction) []ssa.Value {
 }
 
 // eachInstr visits every instruction of fn.
-func eachInstr(fn *ssa.Function, f func(ssa.Instruction)) {
+func eachInstrLocal(fn *ssa.Function, f func(ssa.Instruction)) {
 	for _, b := range fn.Blocks {
 		for _, in := range b.Instrs {
 			f(in)
@@ -336,11 +368,60 @@ func eachInstr(fn *ssa.Function, f func(ssa.Instruction)) {
 	}
 }
 
+// theProg is the program under analysis (set by Load); eachInstr needs it to see through helpers.
+var theProg *Prog
+
+// eachInstr visits the instructions of fn and, in line, those of every plain helper
+// (isPlainHelper) fn calls, transitively: code moved into a new private function by an
+// extract-function refactoring is still found where the rules look for it.
+func eachInstr(fn *ssa.Function, f func(ssa.Instruction)) {
+	seen := map[*ssa.Function]bool{fn: true}
+	var visit func(g *ssa.Function, depth int)
+	visit = func(g *ssa.Function, depth int) {
+		for _, b := range g.Blocks {
+			for _, in := range b.Instrs {
+				if _, isRet := in.(*ssa.Return); isRet && depth > 0 {
+					continue // a helper's return is not a return of fn
+				}
+				f(in)
+				if theProg == nil || depth >= 3 {
+					continue
+				}
+				if c, ok := in.(*ssa.Call); ok {
+					if h := c.Common().StaticCallee(); h != nil && !seen[h] && theProg.isPlainHelper(h) {
+						seen[h] = true
+						visit(h, depth+1)
+					}
+				}
+			}
+		}
+	}
+	visit(fn, 0)
+}
+
 // withClosures returns fn followed by all closures nested in it.
 func withClosures(fn *ssa.Function) []*ssa.Function {
 	out := []*ssa.Function{fn}
 	for _, a := range fn.AnonFuncs {
 		out = append(out, withClosures(a)...)
+	}
+	// `go func() {…}()` rewritten as `go x.helper(…)` (or defer): the plain helper plays the closure's part
+	if theProg != nil {
+		have := map[*ssa.Function]bool{}
+		for _, f := range out {
+			have[f] = true
+		}
+		for _, f := range append([]*ssa.Function{}, out...) {
+			eachInstr(f, func(in ssa.Instruction) {
+				switch in.(type) {
+				case *ssa.Go, *ssa.Defer:
+					if h := in.(ssa.CallInstruction).Common().StaticCallee(); h != nil && !have[h] && theProg.isPlainHelper(h) {
+						have[h] = true
+						out = append(out, h)
+					}
+				}
+			})
+		}
 	}
 	return out
 }
@@ -367,4 +448,75 @@ func unwrap(v ssa.Value) ssa.Value {
 			return v
 		}
 	}
+}
+
+// isHelper: fn is a package-private, named function or method that is only ever called
+// statically from package rpc (never used as a value): an extract-function refactoring
+// produces exactly such functions, and all their callers are known.
+func (p *Prog) isHelper(fn *ssa.Function) bool {
+	if fn == nil || fn.Pkg != p.RPC || fn.Blocks == nil || fn.Parent() != nil || fn.Synthetic != "" {
+		return false
+	}
+	if token.IsExported(fn.Name()) || p.valueUse[fn] || len(p.callers[fn]) == 0 {
+		return false
+	}
+	if fn.Name() == "init" || fn.Name() == "main" {
+		return false
+	}
+	return true
+}
+
+// plainCallers returns the plain (not go / defer) call sites of fn.
+func (p *Prog) plainCallers(fn *ssa.Function) []*ssa.Call {
+	var out []*ssa.Call
+	for _, c := range p.callers[fn] {
+		if cc, ok := c.(*ssa.Call); ok {
+			out = append(out, cc)
+		}
+	}
+	return out
+}
+
+// isPlainHelper: a helper that no rule anchors on by name. Such a function is what an
+// extract-function refactoring creates; it is analysed as if written in line.
+func (p *Prog) isPlainHelper(fn *ssa.Function) bool {
+	return p.isHelper(fn) && !anchoredNames[fname(fn)]
+}
+
+// homes returns the functions a piece of code belongs to for the purposes of the rules: the
+// function itself, or — for a plain helper, which is analysed as in-line code — the homes of
+// every function that calls it.
+func (p *Prog) homes(fn *ssa.Function) map[*ssa.Function]bool {
+	out := map[*ssa.Function]bool{}
+	var walk func(f *ssa.Function, d int)
+	walk = func(f *ssa.Function, d int) {
+		if f == nil || out[f] {
+			return
+		}
+		out[f] = true
+		if d < 3 && p.isPlainHelper(f) {
+			for _, cs := range p.callers[f] {
+				walk(cs.Parent(), d+1)
+			}
+		}
+	}
+	walk(fn, 0)
+	return out
+}
+
+// sameFn: a and b are the same function once plain helpers are read as in-line code.
+func (p *Prog) sameFn(a, b *ssa.Function) bool {
+	if a == b {
+		return true
+	}
+	if !p.isPlainHelper(a) && !p.isPlainHelper(b) {
+		return false
+	}
+	ha := p.homes(a)
+	for f := range p.homes(b) {
+		if ha[f] {
+			return true
+		}
+	}
+	return false
 }
